@@ -12,10 +12,15 @@ RULE = ("correspondence (model = extracted Coq lexer+parser+walk+API, every Rust
         "the input on UTF-8 character boundaries and its fragment equals the input at that range; big inputs (100000 "
         "brackets, multi-MB strings, 1.5 MB objects, 200000-element arrays) each in its own process under a 60 s hang guard "
         "with count-free pass criterion 'returns a result line'; serde_json values nested to depth 127 through From<&Value>; "
+        "recursion depth: the depth hook's maximal nesting of parse_cst/parse_rule/parse_member/parse_token frames = the model twin "
+        "walk_depth on the text stream and on nests of 1..1000 levels, and <= 515 (the proved bound); value/merger/subset depth "
+        "probed on deep and big inputs; "
         "value-path cost: hook counter 0 = model twin vcalls exactly, criterion calls <= 4*nodes (count-based). "
         "non-trivial = a text on which the implementation returns an error carrying a range, or a multi-source / superset "
         "case; distinct = distinct case line")
-ASSUMPTIONS = ["stack size, wall time and the allocator are runtime facts: validated by running (1 GiB harness thread, hang guard), not proved",
+ASSUMPTIONS = ["the NUMBER of nested frames is proved bounded (772 parser / 515 walk) and the walk's is measured by a hook and compared with the model; "
+               "the generated lelwel parser carries no hook (its depth is tied through the CST correspondence only)",
+               "stack size (bytes per frame), wall time and the allocator are runtime facts: validated by running (1 GiB harness thread, hang guard), not proved",
                "texts reach the harness hex-encoded and must be valid UTF-8 (Rust &str); invalid UTF-8 cannot be passed to the API at all",
                "value path cost: count-based (hook counter), the twin vcalls is proved equal to the number of values (C05_value_cost_linear)"]
 
@@ -98,6 +103,42 @@ def run(ctx):
             if bad:
                 ctx.fail("InvalidJson range is not faithful: " + bad, name, r[:200])
     ctx.notes["big_inputs"] = big
+    # ---- recursion depth: the depth hook (frames of parse_cst / parse_rule / parse_member / parse_token
+    #      simultaneously active) must equal the model's walk_depth, whose bound 515 is a theorem
+    deep = []
+    for n in (1, 2, 100, 200, 254, 255, 256, 257, 258, 300, 1000):
+        deep += ["[" * n + "]" * n, "[" * n + "1" + "]" * n, '{"a":' * n + "null" + "}" * n,
+                 '[{"a":' * (n // 2) + "1" + "}]" * (n // 2), "[" * n, '{"a":' * n, '[{"a":' * (n // 2) + "[" * (n % 2)]
+    dtexts = list(dict.fromkeys(ctx.rng.sample(texts, min(len(texts), 3000 if quick else 40000)) + deep))
+    lines = ["depth_walk\t" + hx(t) for t in dtexts]
+    mi, _ = textlib.correspond(ctx, lines, "walk recursion depth (hook) = walk_depth (model twin)",
+                               lambda l, r: r.startswith("D ") and int(r[2:]) >= 4)
+    dmax = 0
+    for t, l, r in zip(dtexts, lines, mi):
+        if r.startswith("D "):
+            dmax = max(dmax, int(r[2:]))
+            if int(r[2:]) > 515:
+                ctx.fail("the CST walk nests deeper than the proved bound 515 (C05_walk_depth_bound)", l,
+                         {"text": t[:120], "depth": int(r[2:])})
+        elif r == "PANIC" or r.startswith("CRASH") or r == "HANG":
+            ctx.fail("from_str does not return", l, {"text": t[:120], "result": r})
+    ctx.notes["walk_depth_max_observed"] = dmax
+    fam = [0, 0, 0, 0]
+    allt = deep + list(big_inputs().values())[:8]
+    for t in allt:
+        r, secs = textlib.run_guarded(vlib.HARNESS, "depth_all\t" + hx(t), 60)
+        ctx.evaluations += 1
+        if not r.startswith("D "):
+            ctx.fail("depth probe does not return: " + r[:40], "depth_all\t<%d bytes starting %r>" % (len(t), t[:20]), r[:100])
+            continue
+        d = [int(x) for x in r.split(" ")[1:]]
+        fam = [max(a, b) for a, b in zip(fam, d)]
+        # value path: one frame per value entered (serde_json itself refuses nesting > 128);
+        # merger / subset recurse over shapes, which are never deeper than the walk that built them
+        if d[1] > 515 or d[0] > 130 or d[2] > 515 or d[3] > 515:
+            ctx.fail("recursion deeper than the proved / structural bound (value<=130, walk<=515, merger<=515, subset<=515)",
+                     "depth_all\t" + hx(t[:2000]), {"depths value/walk/merger/subset": d})
+    ctx.notes["depth_max_observed value/walk/merger/subset"] = fam
     # ---- value path: depth up to serde_json's limit, then the count-based cost criterion
     lines = []
     for n in (1, 2, 16, 64, 100, 120, 126, 127, 128):
